@@ -41,4 +41,12 @@ def decodeRune (b : Bytes) : Nat × Nat :=
       | _ => (runeError, 1)
     else (runeError, 1)
 
+/-- Go's `utf8.EncodeRune` (surrogates and values above U+10FFFF are written as U+FFFD) -/
+def encodeRune (r : Nat) : Bytes :=
+  let r := if (0xD800 ≤ r ∧ r ≤ 0xDFFF) ∨ r > 0x10FFFF then runeError else r
+  if r < 0x80 then [UInt8.ofNat r]
+  else if r < 0x800 then [UInt8.ofNat (0xC0 + r / 64), UInt8.ofNat (0x80 + r % 64)]
+  else if r < 0x10000 then [UInt8.ofNat (0xE0 + r / 4096), UInt8.ofNat (0x80 + r / 64 % 64), UInt8.ofNat (0x80 + r % 64)]
+  else [UInt8.ofNat (0xF0 + r / 262144), UInt8.ofNat (0x80 + r / 4096 % 64), UInt8.ofNat (0x80 + r / 64 % 64), UInt8.ofNat (0x80 + r % 64)]
+
 end Enc.Utf8
